@@ -583,12 +583,34 @@ func runFuzz(id string, spec propSpec, tmp string) (violationLine string, info m
 		dst := filepath.Join(dir, "fuzz-"+m[1]+".json")
 		if fc, e := os.ReadFile(filepath.Join(tmp, "fail-fuzz.json")); e == nil {
 			_ = os.WriteFile(dst, fc, 0o644)
-		} else if b, e := os.ReadFile(src); e == nil {
-			_ = os.WriteFile(dst, b, 0o644)
+			_ = os.Remove(src)
+			fmt.Println(tail(out, 60))
+			return fmt.Sprintf("VIOLATION property=%s replay=%s", id, filepath.Join("replays", id, "fuzz-"+m[1]+".json")), info, ""
 		}
+		// The worker died on this input without the oracle reporting a failure (no case file):
+		// replay the saved input through the target in a fresh process. Only a failure that
+		// reproduces counts; a worker killed by resource exhaustion under 16 instrumented
+		// workers is not a verdict on the property.
+		rargs := []string{"test", "-tags", "verif", "-vet=off", "-count=1", "-run", "^" + spec.Fuzz + "$/" + m[1]}
+		rargs = append(append(rargs, altModArgs(tmp)...), "./props")
+		rcmd := exec.Command("go", rargs...)
+		rcmd.Dir = harness
+		rcmd.Env = cmd.Env
+		rout, rerr := rcmd.CombinedOutput()
+		crasher, _ := os.ReadFile(src)
 		_ = os.Remove(src)
-		fmt.Println(tail(out, 60))
-		return fmt.Sprintf("VIOLATION property=%s replay=%s", id, filepath.Join("replays", id, "fuzz-"+m[1]+".json")), info, ""
+		if rerr == nil {
+			info["unreproducible_crashers"] = 1
+			fmt.Printf("fuzz worker died on a saved input that passes when replayed in a fresh process (not counted):\n%s\n", string(crasher))
+			return "", info, ""
+		}
+		if fc, e := os.ReadFile(filepath.Join(tmp, "fail-fuzz.json")); e == nil {
+			_ = os.WriteFile(dst, fc, 0o644)
+			fmt.Println(tail(string(rout), 60))
+			return fmt.Sprintf("VIOLATION property=%s replay=%s", id, filepath.Join("replays", id, "fuzz-"+m[1]+".json")), info, ""
+		}
+		fmt.Println(tail(string(rout), 60))
+		return "", info, "fuzz crasher reproduces but the oracle wrote no case (harness problem): " + string(crasher)
 	}
 	fmt.Println(tail(out, 40))
 	return "", info, "fuzz campaign ended abnormally without a crasher: " + err.Error()
